@@ -265,7 +265,7 @@ func genMsgCase(t *rapid.T) MsgCase {
 func TestC12_Random(t *testing.T) {
 	rec := evid.New("C12", "c12_random", "rapid: method names of 0..300/4096/70000 arbitrary bytes, message types 0..65535, any sequence id; the three header writers vs the reference bytes and MessageBeginLength; both readers (stream reader under generated fragmentation) must return the same name/type/seq and the exact length; first word replaced by arbitrary/boundary values (must fail as BAD_VERSION unless the upper half is 0x8001); every strict prefix must fail; MarshalFastMsg/UnmarshalFastMsg round trip with Base/BaseResp/ApplicationException payloads incl. the EXCEPTION branch and the empty-method error; non-trivial = non-empty name with a split stream read, a rejected header, or the EXCEPTION branch")
 	defer rec.Flush()
-	runRapid(t, rec, "c12_message", evid.Pick(30000, 50000), genMsgCase, checkMsg)
+	runRapid(t, rec, "c12_message", evid.Pick(30000, 300000), genMsgCase, checkMsg)
 }
 
 func TestC12_Sweeps(t *testing.T) {
